@@ -225,6 +225,8 @@ def run(case, choices):
                             "whose silences never exceed the timeout must never be killed for inactivity" % (detail[1], pid, silence, timeout))
     sim.observers.append(observer)
 
+    last_env_kill = [None]
+
     def first_gen():
         return sorted(p.pid for p in sim.procs.values() if p.name.startswith("worker") and p.pid in created)
 
@@ -242,6 +244,7 @@ def run(case, choices):
                     sim.fault("worker_killed_by_environment")
                     victim = lw[e["which"] % len(lw)]
                     created.pop(victim.pid, None)          # its silence from now on is death, not a hang
+                    last_env_kill[0] = sim.now
                     master.send_signal(sim, victim.pid, signal.SIGKILL)
             if e.get("tick"):
                 t_ = m.tasks[0]
@@ -263,6 +266,12 @@ def run(case, choices):
         sim.after(e["t"], (lambda e=e: do_event(e)))
     try:
         why = sim.run(until=lambda: sim.now >= horizon or m.state != "running")
+        if last_env_kill[0] is not None and m.state == "running" and sim.now < last_env_kill[0] + t_eff + 5.0:
+            # a kill injected at a system-call index of the master can land arbitrarily late; a child killed between fork() and its
+            # registration is a phantom entry the master only drops after `timeout` (kill -> ESRCH): give it that long before judging
+            sim.probe("late_kill_run_extended")
+            until_t = last_env_kill[0] + t_eff + 5.0
+            why = sim.run(until=lambda: sim.now >= until_t or m.state != "running")
         ctx = lambda: "timeout=%s kinds=%r scripts=%r events=%r t=%.2f" % (timeout, case["kinds"], case["scripts"], case["events"], sim.now)
         if sim.crash:
             raise master.HarnessError(sim.crash)
